@@ -4,8 +4,9 @@ CONSTANTS
   Cancellers = {"k1", "k2"}
   Periodic = FALSE
   DeleteByName = FALSE
+  ClaimIgnoresCancel = FALSE
   DropOnClaim = FALSE
   MaxRuns = 1
-INVARIANTS TypeOK AtMostOnce NoOverlap NoPanic NoLostRun NotDropped CancelBranchNoRun NameReusable NameSlotUnique SuccessorReachable LockFreeAtEnd
+INVARIANTS TypeOK AtMostOnce NoOverlap NoPanic NoLostRun NotDropped CancelBranchNoRun CancelOkNeverRuns NameReusable NameSlotUnique SuccessorReachable LockFreeAtEnd
 PROPERTIES Terminates NoStuckCaller
 CHECK_DEADLOCK FALSE
